@@ -10,7 +10,7 @@ CHECKS = {
     "C01": dict(
         engine="libfuzzer+enumerator",
         category="exploration",
-        technique="coverage-guided fuzzing (libFuzzer, ASan/UBSan) with an in-target semantic oracle; deterministic nesting enumeration; structured mutation of generated programs",
+        technique="coverage-guided fuzzing (libFuzzer, ASan/UBSan) with an in-target semantic oracle; deterministic nesting enumeration; Hypothesis-generated inputs (mutated grammar programs, token soup in syntactic frames, constant expressions) through the same oracle",
         text="Random/coverage-guided search over byte strings against an explicit oracle (exception type, independent trivia scanner and token "
              "lexer for drop detection, junk-suffix metamorphic relation, sanitizers, bounded native stack). Finds violations; does not establish absence.",
         note="trusts ASan/UBSan and the harness lexer (common/parse_oracle.hpp); over-reads of exactly one byte past a std::string are invisible",
@@ -231,7 +231,7 @@ def main():
             {"name": "libfuzzer", "path": "fuzz/", "serves_properties": ["C01", "C16", "C18"], "kind_free_text": "libFuzzer targets with in-target oracles (clang -fsanitize=fuzzer,address,undefined)"},
             {"name": "tsan-stress", "path": "threads/", "serves_properties": ["C13"], "kind_free_text": "seeded multi-thread workloads under ThreadSanitizer"},
             {"name": "rapidcheck+enumerator", "path": "arith/", "serves_properties": ["C05"], "kind_free_text": "in-process differential against natively compiled arithmetic; rapidcheck for random operands"},
-            {"name": "hypothesis-runner", "path": "runner/ + props/", "serves_properties": ["C02", "C03", "C04", "C06", "C07", "C08", "C09", "C10", "C11", "C12", "C14", "C15", "C16", "C17", "C18", "C19", "C20"], "kind_free_text": "Hypothesis strategies and Python models driving a persistent ASan-instrumented C++ runner over a pipe"},
+            {"name": "hypothesis-runner", "path": "runner/ + props/", "serves_properties": ["C01", "C02", "C03", "C04", "C06", "C07", "C08", "C09", "C10", "C11", "C12", "C14", "C15", "C16", "C17", "C18", "C19", "C20"], "kind_free_text": "Hypothesis strategies and Python models driving a persistent ASan-instrumented C++ runner over a pipe"},
         ],
         "checks": checks,
         "not_applicable": [{"property_id": p, "reason": PENDING_REASON} for p in ALL if p not in CHECKS],
